@@ -27,7 +27,7 @@ theorem ThEq.trans {a b c : Th} (h1 : ThEq a b) (h2 : ThEq b c) : ThEq a c :=
     · rcases h1.wc with e1 | e1
       · exact .inl (e.trans e1)
       · exact .inr (by rw [e, e1, h2.wh])
-    · exact .inr e⟩
+    · exact .inr e, h2.cap.trans h1.cap⟩
 
 theorem Same.refl (s : BSt) : Same s s := ⟨rfl, rfl, fun _ => ThEq.refl _, rfl, rfl, rfl, rfl, fun _ => rfl, rfl⟩
 
@@ -282,7 +282,7 @@ theorem PIo.checkFailures {inj : BSt → Nat → BSt} (hi : InjOK inj) (h : PIo 
   simp only
   split
   · apply hi.pio
-    exact (hb.same (Same.setTh _ i _ ⟨rfl, rfl, rfl, rfl, rfl, rfl, rfl, .inl rfl⟩)).frame rfl
+    exact (hb.same (Same.setTh _ i _ ⟨rfl, rfl, rfl, rfl, rfl, rfl, rfl, .inl rfl, rfl⟩)).frame rfl
   · exact hb
 
 theorem findFirst_spec (s : BSt) (l : List Nat) (hq : ∀ i, QC (s.th i)) :
@@ -355,7 +355,7 @@ theorem PIo.cleanupGo (fuel : Nat) (s : BSt) (h : PIo c fl s) : PIo c fl (cleanu
       apply ih
       have h1 : PIo c fl s1 := h.same f1
       have h2 := h1.remove i (f2 i rfl).1 (f2 i rfl).2 (counterMod s1.cfg (s1.invalidCnt + 2 ^ s1.cfg.invalidBits - 1))
-      exact h2.same (Same.setTh _ i _ ⟨rfl, rfl, rfl, rfl, rfl, rfl, rfl, .inl rfl⟩)
+      exact h2.same (Same.setTh _ i _ ⟨rfl, rfl, rfl, rfl, rfl, rfl, rfl, .inl rfl, rfl⟩)
 
 theorem PIo.cleanupContexts (h : PIo c fl s) : PIo c fl (cleanupContexts s) := by
   unfold Backend.cleanupContexts
